@@ -119,6 +119,11 @@ def main(prop, jobs, tier, level_note, not_under_contract=(), bounded_standin=No
     seed = int(os.environ.get('VERIF_SEED', '0') or 0)
     known_ids, fixed = load_known()
     nproc = int(os.environ.get('VERIF_JOBS', '0') or 0) or min(16, os.cpu_count() or 4)
+    # replay files are evidence of THIS run: stale ones of the jobs about to run are removed
+    import glob
+    for j in jobs:
+        for f in glob.glob(os.path.join(VERIF, 'evidence', 'replay', '%s-%s-*.json' % (prop, re.sub(r'\W+', '_', j.name)))):
+            os.remove(f)
     results = []
     global _pool
     _pool = MemPool(float(os.environ.get('VERIF_MEM_GB', '0') or 0) or _mem_total())
